@@ -422,6 +422,8 @@ struct PSax2 : P {
         else if (f == "nsprefixes") p->setFeature(XMLUni::fgSAX2CoreNameSpacePrefixes, b);
         else if (f == "schema") p->setFeature(XMLUni::fgXercesSchema, b);
         else if (f == "val") { p->setFeature(XMLUni::fgXercesDynamic, v == 2); p->setFeature(XMLUni::fgSAX2CoreValidation, v != 0); }
+        else if (f == "validation") p->setFeature(XMLUni::fgSAX2CoreValidation, b);      // the two raw features behind "val"
+        else if (f == "dynamic") p->setFeature(XMLUni::fgXercesDynamic, b);
         else if (f == "skipdtd") p->setFeature(XMLUni::fgXercesSkipDTDValidation, b);
         else if (f == "loaddtd") p->setFeature(XMLUni::fgXercesLoadExternalDTD, b);
         else if (f == "exitfatal") p->setFeature(XMLUni::fgXercesContinueAfterFatalError, !b);
@@ -497,6 +499,11 @@ struct PLs : P {
         else if (f == "ns") sp(XMLUni::fgDOMNamespaces, b);
         else if (f == "schema") sp(XMLUni::fgXercesSchema, b);
         else if (f == "val") { sp(XMLUni::fgDOMValidateIfSchema, v == 2); sp(XMLUni::fgDOMValidate, v == 1); }
+        else if (f == "validate") sp(XMLUni::fgDOMValidate, b);
+        else if (f == "validate-if-schema") sp(XMLUni::fgDOMValidateIfSchema, b);
+        else if (f == "comments") sp(XMLUni::fgDOMComments, b);
+        else if (f == "cdata-sections") sp(XMLUni::fgDOMCDATASections, b);
+        else if (f == "datatype-normalization") sp(XMLUni::fgDOMDatatypeNormalization, b);
         else if (f == "skipdtd") sp(XMLUni::fgXercesSkipDTDValidation, b);
         else if (f == "loaddtd") sp(XMLUni::fgXercesLoadExternalDTD, b);
         else if (f == "exitfatal") sp(XMLUni::fgXercesContinueAfterFatalError, !b);
@@ -784,6 +791,45 @@ static std::string doHistory(const std::vector<std::string>& t) {
     return compare(A, B, nEv, nErr);
 }
 
+// Q <api> <scanner> <order> <op>... F:<doc>
+// feature SEQUENCES: parser A receives the whole sequence of configuration calls (parses may be interleaved); parser B is
+// fresh and receives ONLY the final values A reports through its getters, in dump order (order = f) or reversed (order = r).
+// B's read-back must equal A's, and the final parse must give the same result on both.
+static std::string doFeatureSeq(const std::vector<std::string>& t) {
+    if (t.size() < 5) return "bad-request";
+    const std::string& api = t[1]; const std::string& sc = t[2]; bool rev = t[3] == "r";
+    std::vector<std::string> fin = splitc(t.back(), ':');
+    if (fin[0] != "F" || fin.size() < 2) return "bad-request";
+    std::unique_ptr<P> pa(mk(api, sc)), pb(mk(api, sc));
+    HistState ha;
+    for (size_t i = 4; i + 1 < t.size(); i++) applyOp(pa.get(), t[i], ha, false);
+    std::string dumpA = pa->cfgDump();
+    std::vector<std::string> kv = splitc(dumpA, ',');
+    if (!kv.empty() && kv.back().empty()) kv.pop_back();
+    if (api == "ls") {      // DOM L3: validate-if-schema=false switches validation off, so it has to be set before validate
+        std::stable_sort(kv.begin(), kv.end(), [](const std::string& a, const std::string& b) {
+            return a.rfind("validate-if-schema", 0) == 0 && b.rfind("validate-if-schema", 0) != 0; });
+    } else if (rev) std::reverse(kv.begin(), kv.end());
+    for (auto& e : kv) {
+        size_t q = e.find('=');
+        if (q == std::string::npos) continue;
+        std::string k = e.substr(0, q); int v = atoi(e.substr(q + 1).c_str());
+        guarded([&] { pb->set(k, v); });
+    }
+    std::string dumpB = pb->cfgDump();
+    if (dumpA != dumpB) {
+        std::vector<std::string> x = splitc(dumpA, ','), y = splitc(dumpB, ',');
+        for (size_t i = 0; i < x.size() && i < y.size(); i++)
+            if (x[i] != y[i]) return "configmismatch " + x[i].substr(0, x[i].find('=')) + " # sequence gives " + x[i] + ", a fresh parser given the final values reports " + y[i];
+        return "configmismatch ? # " + dumpA + " || " + dumpB;
+    }
+    std::string A = finalParse(pa.get(), fin[1]);
+    int nEv = pa->rec.nEv, nErr = pa->rec.nErr;
+    std::string B = finalParse(pb.get(), fin[1]);
+    if (pa->cfgDump() != dumpA) return "configchanged ? # the final parse changed a setting: " + dumpA + " -> " + pa->cfgDump();
+    return compare(A, B, nEv, nErr);
+}
+
 // T <api> <scanner> <mode> <gram> <type> <doc> <cfg-ops...>
 static std::string doTransparent(const std::vector<std::string>& t) {
     if (t.size() < 7) return "bad-request";
@@ -975,6 +1021,7 @@ int main() {
             std::string how = guarded([&] {
                 if (t[0] == "H") ans = doHistory(t);
                 else if (t[0] == "T") ans = doTransparent(t);
+                else if (t[0] == "Q") ans = doFeatureSeq(t);
                 else if (t[0] == "G") ans = doPoolTrace(t);
                 else if (t[0] == "S") ans = doStringPool(t);
                 else ans = "bad-request";
